@@ -1018,12 +1018,19 @@ Proof.
   destruct N as [N S]. unfold me_disqualified in N.
   cbn [decode_hfsts6 decode_bgmsr f_bypass f_invalid f_fpf_lock f_eep f_protect_bios
     f_bg_disable b_force_anchor b_verified b_revoked b_capability] in N.
-  repeat split; try exact S;
-    try (destruct (bit h 4), (bit h 5), (bit h 30), (bit h 3), (bit h 28), (bit m 6), (bit m 7), (bit m 32);
-         first [reflexivity | exfalso; apply N; tauto]).
-  - intros E. apply N. tauto.
-  - intros E. apply N. tauto.
-  - intros E. destruct (bit m 4); [reflexivity|]. exfalso. apply N. tauto.
+  assert (T : forall x, (x = true -> False) -> x = false) by (intros [|] Hx; [exfalso; apply Hx; reflexivity|reflexivity]).
+  assert (F : forall x, (x = false -> False) -> x = true) by (intros [|] Hx; [reflexivity|exfalso; apply Hx; reflexivity]).
+  split; [apply T; intros E; apply N; tauto|].
+  split; [apply T; intros E; apply N; tauto|].
+  split; [apply F; intros E; apply N; tauto|].
+  split; [split; intros E; apply N; tauto|].
+  split; [exact S|].
+  split; [apply F; intros E; apply N; tauto|].
+  split; [intros Ev; apply F; intros E; apply N; tauto|].
+  split; [apply F; intros E; apply N; tauto|].
+  split; [apply T; intros E; apply N; tauto|].
+  split; [apply T; intros E; apply N; tauto|].
+  apply F; intros E; apply N; tauto.
 Qed.
 
 (** ValidateMEAgainstManifests *)
@@ -1119,7 +1126,6 @@ Proof.
     destruct (Z.land pbet 15 =? 0) eqn:Ep; destruct (nseg <? 1) eqn:Es;
     split; intros H; try discriminate H; try reflexivity;
     try (decompose [and] H; first [discriminate | lia]).
-  repeat split; lia.
 Qed.
 
 Lemma sane_bpm_v2 nse flags pbet base0 vtdbar cf nseg : nse <> 0 ->
@@ -1150,7 +1156,8 @@ Proof.
     + apply sane_bpm_v2 in H; [|assumption]. destruct H as (H0 & H2 & Hp & H9 & Hs).
       unfold bpm_ok. repeat split; try assumption; try (intros; lia).
       intros _. exists cf. split; [reflexivity|assumption].
-    + exfalso. unfold sane_bpm in H. cbn [Z.eqb] in H. replace (nse =? 0) with false in H by lia.
+    + exfalso. unfold sane_bpm, good, bad in H. change (2 =? 1) with false in H. change (2 =? 2) with true in H.
+      cbv beta iota in H. replace (nse =? 0) with false in H by lia.
       brk; discriminate H.
 Qed.
 
